@@ -404,7 +404,8 @@ def abort_table(ctx, rule):
     if len(fns) != 1:
         ctx.violation(rule, rule + "|fn", "UNRECOGNISED: no unique abort on the public writer")
         return
-    outs = [o for o in ctx.px(fns[0]) if o.kind == "return"]
+    # helpers on the writer's own types (e.g. `Inner::chunker_mut()`) are expanded; the chunk writer's abort stays a call
+    outs = [o for o in ctx.px(fns[0], inline=helper_inline(ctx, own=(wadt, G["enum"]), never=(R["abort"],)), key="helpers") if o.kind == "return"]
     seen = set()
     for o in outs:
         st0 = ("field", ("deref", ("param", 1)), "0")
